@@ -21,11 +21,12 @@ deriving DecidableEq, Repr, Inhabited
 
 /-! ## citations -/
 
-/-- `_deref_citations` on one qualifier entry: `"[i]"` ↦ `references[i-1]`.  (Python's negative index
-for `"[0]"` and `IndexError` past the end are outside the properties' scope: `none`.) -/
+/-- `_deref_citations` on one qualifier entry: `"[i]"` ↦ `references[i-1]`; an entry that already is a
+reference (the same record object supplied twice) is left alone.  (Python's negative index for `"[0]"`
+and `IndexError` past the end are outside the properties' scope: `none`.) -/
 def derefCite (refs : List Nat) : Cite → Option Cite
   | .idx i => if i = 0 then none else (refs[i-1]?).map Cite.ref
-  | .ref _ => none   -- a Reference object does not match the citation pattern: TypeError
+  | .ref r => some (.ref r)
 
 def derefFeature (refs : List Nat) (f : Feature) : Option Feature :=
   (f.cites.mapM (derefCite refs)).map (fun cs => { f with cites := cs })
